@@ -66,6 +66,20 @@ CHECKS = {
    text="Every Err outcome of every parser (typed, generic, unknown, compound, report block, FCI, SDES sub-parsers) and of every conversion/FCI extraction is checked against its path condition: UnsupportedVersion carries the input's version and it is not 2; PacketTypeMismatch carries the input's type byte and the parser's RFC type, which differ; Truncated has expected > actual, TooLarge expected < actual; inputs shorter than the minimum give Truncated{MIN, len} (typed parsers, the generic parser per dispatched type, and compound parsing with the smallest packet's minimum); version-2 inputs of the right type with a wrong total length give Truncated/TooLarge{4*(length field+1), len}.",
    note=TB, ref="§4 C18"),
 }
+SETTERS = (" The configured values are those handed to the public setters: for the builders of this property every by-value builder method "
+           "is shown to keep every other field, to store its argument unchanged, and to let every argument reach the configuration "
+           "(frame / rebuild / collection-idiom / setter-effect rules shared with C20).")
+EXTRA = {
+ "C02": SETTERS, "C03": SETTERS + " With the chunk parser hooked, its result is appended exactly once per walk step to the list Sdes::chunks() traverses.",
+ "C04": SETTERS,
+ "C05": SETTERS + " The FCI trait contract assumed at packet level (announces S, writes exactly S) is discharged here for every FCI builder; the NACK word generator is also executed exactly on one- and two-element request sets (every distance 1..=16 and beyond), and after a flush the base must be the number that did not fit.",
+ "C07": SETTERS + " The NACK encoder rules of C05 (step relation, post-state, exact small request sets) are evaluated here as well.",
+ "C10": " The eight public SDES item-type constants equal RFC 3550's numbers; every chunk the walk parses is appended once to the list Sdes::chunks() traverses from its first element.",
+ "C14": " add_packet appends exactly its argument (setter rules shared with C20).",
+ "C20": " Every argument of every by-value builder method reaches the configuration (a setter that does not set, an adder that does not add, is reported).",
+ "C09": " Undischarged overflow/division obligations of the parser and of the accessors compared are reported here as well.",
+ "C13": " Undischarged overflow/division obligations met while interpreting the parser are reported here as well.",
+}
 PENDING = "check under construction (see DESIGN.md); not yet registered"
 def main():
     props = [json.loads(l)["id"] for l in open(os.path.join(V, "properties.jsonl"))]
@@ -82,7 +96,7 @@ def main():
             "evidence_file": f"/verif/evidence/{p}.json",
             "replay_cmd_template": f"./check {p} --replay {{path}}",
             "engine": "rtcpverif",
-            "level_claimed": {"category": c["cat"], "text": c["text"], "design_ref": c["ref"]},
+            "level_claimed": {"category": c["cat"], "text": c["text"] + EXTRA.get(p, ""), "design_ref": c["ref"]},
             "level_note": c["note"],
             "technique": c["tech"],
         })
